@@ -44,7 +44,7 @@ func (ex *Explorer) missingReach() []string {
 	return out
 }
 
-func report(verifDir, prop, tier string, seed int64, t0 time.Time, loadS float64, cc *CheckCfg, entries []*ssa.Function, results []*Explorer, known map[string]KnownFinding, noEvid bool, prog *ssa.Program, extraInconclusive []string, extraCoverage map[string]interface{}) int {
+func report(verifDir, prop, tier string, seed int64, t0 time.Time, loadS float64, cc *CheckCfg, entries []*ssa.Function, results []*Explorer, known map[string]KnownFinding, noEvid bool, prog *ssa.Program, extraInconclusive []string, extraCoverage map[string]interface{}, replayer func(string) ReplayResult) int {
 	states, transitions, paths := 0, 0, 0
 	obligations, discharged := 0, 0
 	var samples []interface{}
@@ -154,6 +154,8 @@ func report(verifDir, prop, tier string, seed int64, t0 time.Time, loadS float64
 
 	code := 0
 	verdict := "held within bounds"
+	replays, replaysConfirmed := 0, 0
+	var replayMismatch []string
 	replayDir := filepath.Join(verifDir, "replay", prop)
 	var violLines []string
 	if len(newCex) > 0 {
@@ -162,19 +164,41 @@ func report(verifDir, prop, tier string, seed int64, t0 time.Time, loadS float64
 		for _, c := range newCex {
 			key := c.Harness + "-" + c.Obligation
 			seen[key]++
-			if seen[key] > 2 {
-				continue
+			if seen[key] > 2 || (seen[key] > 1 && contains(cc.Replayable, c.Harness)) {
+				continue // for natively replayable harnesses only the replayed counterexample is reported
 			}
 			path := filepath.Join(replayDir, fmt.Sprintf("%s-%d.json", sanitize(key), seen[key]))
 			bz, _ := json.MarshalIndent(c, "", " ")
 			os.WriteFile(path, bz, 0o644)
+			if contains(cc.Replayable, c.Harness) && seen[key] == 1 {
+				r := replayer(path)
+				replays++
+				c.Extra["native_replay"] = fmt.Sprintf("supported=%v confirmed=%v assumptions_held=%v failed=%v panicked=%q %s", r.Supported, r.Confirmed, r.AssumptionsHeld, r.Failed, r.Panicked, r.Reason)
+				bz, _ = json.MarshalIndent(c, "", " ")
+				os.WriteFile(path, bz, 0o644)
+				if r.Supported && !r.Confirmed {
+					// the model does not reproduce against the natively built code: the encoding or a model is wrong.
+					// Never reported as a violation.
+					replayMismatch = append(replayMismatch, fmt.Sprintf("%s: counterexample for %s does not reproduce natively (%s)", c.Harness, c.Obligation, path))
+					continue
+				}
+				if r.Confirmed {
+					replaysConfirmed++
+				}
+			}
 			violLines = append(violLines, fmt.Sprintf("VIOLATION property=%s replay=%s", prop, path))
 			if len(samples) < 30 {
 				samples = append(samples, map[string]interface{}{"violation": c.Obligation, "harness": c.Harness, "desc": c.Desc, "inputs": compactVals(c.Values)})
 			}
 		}
-		code = 1
-		verdict = "violated"
+		inconclusive = append(inconclusive, replayMismatch...)
+		if len(violLines) > 0 {
+			code = 1
+			verdict = "violated"
+		} else {
+			code = 2
+			verdict = "inconclusive"
+		}
 	} else if len(inconclusive) > 0 {
 		code = 2
 		verdict = "inconclusive"
@@ -191,7 +215,18 @@ func report(verifDir, prop, tier string, seed int64, t0 time.Time, loadS float64
 		path := filepath.Join(replayDir, "known-"+sanitize(k)+".json")
 		bz, _ := json.MarshalIndent(c, "", " ")
 		os.WriteFile(path, bz, 0o644)
-		knownLines = append(knownLines, fmt.Sprintf("KNOWN-FINDING: property=%s %s [%s; obligation %s in %s; witness %s]", prop, known[k].What, k, c.Obligation, c.Harness, path))
+		native := ""
+		if contains(cc.Replayable, c.Harness) {
+			r := replayer(path)
+			replays++
+			if r.Confirmed {
+				replaysConfirmed++
+				native = "; reproduced natively against the real code"
+			} else {
+				native = fmt.Sprintf("; native replay did not reproduce it (assumptions_held=%v failed=%v %s)", r.AssumptionsHeld, r.Failed, r.Reason)
+			}
+		}
+		knownLines = append(knownLines, fmt.Sprintf("KNOWN-FINDING: property=%s %s [%s; obligation %s in %s; witness %s%s]", prop, known[k].What, k, c.Obligation, c.Harness, path, native))
 		if len(samples) < 30 {
 			samples = append(samples, map[string]interface{}{"known_finding": k, "harness": c.Harness, "obligation": c.Obligation, "inputs": compactVals(c.Values)})
 		}
@@ -210,7 +245,8 @@ func report(verifDir, prop, tier string, seed int64, t0 time.Time, loadS float64
 	ev.Coverage = map[string]interface{}{
 		"states":                        states,
 		"transitions":                   transitions,
-		"traces_validated_against_impl": 0,
+		"traces_validated_against_impl": replays,
+		"native_replays_confirmed":      replaysConfirmed,
 		"samples":                       samples,
 		"verdict":                       verdict,
 		"paths":                         paths,
